@@ -68,8 +68,10 @@ def run(ctx):
             for bo in ("little", "big", "default"):
                 for cont in ("bytearray", "memoryview", "bytes"):
                     want = "%s,%s" % (bo, cont)
-                    if not any(j.get("flag", "").endswith(want) for j in chosen):
-                        cand = sorted((j for j in int_by_op[op] if j.get("flag", "").endswith(want)), key=lambda j: json.dumps(j, sort_keys=True))
+                    # ... with enough bytes for a reordering or overwriting of the caller's buffer to show (0, 1 or 2 bytes can hide it)
+                    fits = lambda j: j.get("flag", "").endswith(want) and j["sh"][0]["b"] >= 7       # noqa: E731
+                    if not any(fits(j) for j in chosen):
+                        cand = sorted((j for j in int_by_op[op] if fits(j)), key=lambda j: json.dumps(j, sort_keys=True))
                         if cand:
                             chosen.append(cand[rnd.randrange(len(cand))])
         int_jobs += chosen
